@@ -2,6 +2,11 @@ package clover
 
 import (
 	"os"
+
+	"github.com/dgraph-io/badger/v4"
+	"github.com/ostafen/clover/v2/store"
+	cbadger "github.com/ostafen/clover/v2/store/badger"
+	cbolt "github.com/ostafen/clover/v2/store/bbolt"
 	"path/filepath"
 
 	"github.com/ostafen/clover/v2/zzverif/memstore"
@@ -41,3 +46,21 @@ func writeRawFile(path string, wellFormed bool) {
 }
 
 func setUnreadable(path string) { os.Remove(path) }
+
+func openAdapter(backend int) store.Store {
+	if backend == 0 {
+		dir, _ := os.MkdirTemp(os.Getenv("VERIF_WORK"), "bolt")
+		st, err := cbolt.Open(dir)
+		if err != nil {
+			panic(err)
+		}
+		return st
+	}
+	opts := badger.DefaultOptions("").WithInMemory(true)
+	opts.Logger = nil
+	st, err := cbadger.OpenWithOptions(opts)
+	if err != nil {
+		panic(err)
+	}
+	return st
+}
